@@ -92,3 +92,17 @@ Example C02_audit_example :
   decode 3 c [] None s [0x01; 0x00; 0x06; 0x01; 0x02; 0x36; 0x00] = Ok (VArray [VLong 3; VLong 27], []) /\
   decode 3 c [] None s [0x01; 0x04; 0x06; 0x01; 0x02; 0x36; 0x00] = Ok (VArray [VLong 3; VLong 27], []).
 Proof. repeat split; vm_compute; reflexivity. Qed.
+
+(* The converse - the auditor (and the decoder) accept ONLY specification-legal encodings - is false of
+   the code: variable-length integers padded with continuation bytes (80 00 for zero) are read by
+   decode_variable like the minimal form, and no value has them as a specification-legal encoding.
+   The check replays padded integers on the implementation (class overlong) on every run. *)
+Theorem C02_audit_only_spec_refuted :
+  let c := mkCfg 4096 56 80 in
+  audit 3 c [] None SLong [0x80; 0x00] = Ok [] /\
+  decode 3 c [] None SLong [0x80; 0x00] = Ok (VLong 0, []) /\
+  ~ (exists v, spec [] None SLong v [0x80; 0x00]).
+Proof.
+  split; [vm_compute; reflexivity|]. split; [vm_compute; reflexivity|].
+  intros [v Hs]. exact (spec_long_no_padding [] None v 0x80 Hs).
+Qed.
